@@ -832,6 +832,10 @@ func Repeat(env envs.Environment, text *types.XText, count int) types.XValue {
 		return types.NewXErrorf("must be called with a positive integer, got %d", count)
 	}
 
+	if text.Empty() {
+		return types.XTextEmpty // however often it is repeated
+	}
+
 	var output bytes.Buffer
 	for j := 0; j < count; j++ {
 		output.WriteString(text.Native())
